@@ -35,7 +35,10 @@ def shipped(name: str) -> pd.DataFrame:
         return df[df["pressure"] > 0].reset_index(drop=True)
     if name == "haynesville":
         df = pd.read_csv(_data("pvt_gas_HAYNESVILLE SHALE_20.csv"), index_col=0).rename(columns={"Density": "density"})
-        return df[df["pressure"] >= 10].reset_index(drop=True)
+        # the shipped file was generated with the Z-factor defect repaired by F3: from 12300 psia
+        # upwards it contains rows with Z = 5 (the optimiser's search bound). Only the sound part
+        # of the table is used.
+        return df[(df["pressure"] >= 10) & (df["pressure"] <= 12290)].reset_index(drop=True)
     if name == "pvt_oil_single":
         df = pd.read_csv(_data("pvt_oil.csv")).rename(
             columns={"P": "pressure", "Z-Factor": "z-factor", "Co": "compressibility", "Oil_Viscosity": "viscosity", "Oil_Density": "density"}
